@@ -78,8 +78,9 @@ def has_rename(node, seen=None):
 def check(ctx, node, assigns, replay):
     L = impl.lk()
     names = [e[0] for e in node.expose]
+    cache = {}
     try:
-        top = hier.build(node)
+        top = hier.build(node, cache)
         d_before = {k: v for k, v in top.default_params.items()}
         before = []
         for p in assigns:
@@ -144,6 +145,8 @@ def check(ctx, node, assigns, replay):
         ctx.violation("C11:subsolver-left", "a solver-backed structure is left after flatten()", replay)
         return False
     d_after = {k: v for k, v in top.default_params.items()}
+    if not structure_tie(ctx, node, top, cache, replay):
+        return False
     for i, p in enumerate(assigns):
         try:
             T = impl.solved_matrix(top.solve(**p), names)[0]
@@ -163,6 +166,58 @@ def check(ctx, node, assigns, replay):
         missing = sorted(set(d_before) - set(d_after))
         changed = sorted(k for k in d_before if k in d_after and d_before[k] != d_after[k])
         ctx.violation("C11:defaults", f"default_params changed by flatten(): extra {extra}, missing {missing}, changed {changed}", replay)
+        return False
+    return True
+
+
+def structure_tie(ctx, node, top, cache, replay):
+    """what flatten() left behind (structures, connections, exposures) against `HNet.flatten` of the description: the leaf
+    components (each placement once), the links between leaf pins and the exposed names with their leaf pins - compared as
+    multisets keyed by the identity of the leaf *object*, which is all the flattened solver retains of a placement's origin"""
+    from collections import Counter
+    if hier.count_placements(node) > 12:
+        return True
+    ans = ctx.driver.ask({"op": "hflatten", "tree": hier.tree_json_any(node)})
+    if "paths" not in ans or ans.get("leaf"):
+        ctx.disagreement("C11.model.flatten", f"model: {str(ans)[:80]}", replay)
+        return True
+
+    def leaf_at(path):
+        n = node
+        for i in path:
+            n = n.children[i][0]
+        return n
+    leaf_ids = [id(leaf_at(p)) for p in ans["paths"]]
+    obj2leaf = {id(cache[k]): k for k in cache}                 # real object -> description node
+    pname = lambda q: q.name if hasattr(q, "name") else str(q)
+    try:
+        real_leaves = Counter(obj2leaf[id(st.model)] for st in top.structures)
+        real_links = Counter()
+        seen = set()
+        for (s1, p1), (s2, p2) in top.connections.items():
+            key = frozenset([(id(s1), pname(p1)), (id(s2), pname(p2))])
+            if key in seen:
+                continue
+            seen.add(key)
+            real_links[frozenset([(obj2leaf[id(s1.model)], pname(p1)), (obj2leaf[id(s2.model)], pname(p2))])] += 1
+        real_exp = {pname(nm): (obj2leaf[id(st.model)], pname(q)) for nm, (st, q) in top.pin_mapping.items()}
+    except KeyError:
+        ctx.violation("C11:foreign-structure", "after flatten() the solver holds a structure whose model is none of the hierarchy's leaf objects", replay)
+        return False
+    m_leaves = Counter(leaf_ids)
+    m_links = Counter(frozenset([(leaf_ids[a], p), (leaf_ids[b], q)]) for a, p, b, q in ans["links"])
+    m_exp = {nm: (leaf_ids[c], q) for nm, c, q in ans["exposed"]}
+    ctx.tag("model:flatten-structure")
+    if real_leaves != m_leaves:
+        ctx.violation("C11:components-changed", f"flatten() left {sum(real_leaves.values())} structures, the hierarchy has {sum(m_leaves.values())} leaf placements "
+                      f"(or they are not the same components)", replay)
+        return False
+    if real_links != m_links:
+        ctx.violation("C11:connections-changed", f"the connections after flatten() ({sum(real_links.values())}) are not the links of all levels resolved to leaf pins "
+                      f"({sum(m_links.values())})", replay)
+        return False
+    if real_exp != m_exp:
+        ctx.violation("C11:exposure-changed", "the exposed names after flatten() do not point at the leaf pins they stood for", replay)
         return False
     return True
 
